@@ -9,6 +9,7 @@ pub mod determinism;
 pub mod docs;
 pub mod exports;
 pub mod fsutil;
+pub mod generic;
 pub mod history;
 pub mod libtypes;
 pub mod merge;
@@ -22,6 +23,7 @@ pub fn dispatch(args: &Args, reg: &[TypeEntry], log: &mut Log) {
         "C02" => sem::c02(args, reg, log),
         "C05" => merge::c05(args, reg, log),
         "C06" => history::c06(args, reg, log),
+        "C07" => generic::c07(args, reg, log),
         "C08" => paths::c08(args, log),
         "C12" => libtypes::c12(args, log),
         "C13" => determinism::c13(args, reg, log),
